@@ -247,7 +247,7 @@ pub fn run(ctx: &Ctx) {
     let t = ctx.tier;
     let checked = crate::engine::profile() == "checked";
     let conf = Conformance { name: "conformance" };
-    ctx.regress(&conf);
+    ctx.regress_named(&conf, &["conformance-large", "conformance-shortlen-grid"]);
     ctx.regress(&StreamConformance);
 
     let short = Conformance { name: "conformance-shortlen-grid" };
